@@ -46,4 +46,75 @@ def generate():
     if not re.search(r"new_head\.version\s*=\s*current_head\.version\s*;", a):
         raise ExtractError("allocate: pop no longer keeps the version")
     items.append(nat_def("popVersionBump", 0))
+    # whitespace-free, comment-free text (head + body) of every function the models follow statement by
+    # statement or that the harness-only modes (for_each scan, Accessor, per-thread ids) rely on: any edit
+    # — a changed local type, a rewritten special member function, a reordered statement — breaks a
+    # gen_src_* obligation of Properties/C14.lean and the model / harness has to be re-read against it
+    def norm(s):
+        return re.sub(r"\s+", "", strip_comments(s))
+
+    def func_text(txt, head_rx, nth=0):
+        hits = [m for m in re.finditer(head_rx, txt, flags=re.S)]
+        k = -1
+        for m in hits:
+            j, depth = m.start(), 0
+            while j < len(txt):
+                c = txt[j]
+                if c == "(":
+                    depth += 1
+                elif c == ")":
+                    depth -= 1
+                elif depth == 0 and c == ";":
+                    j = -1
+                    break
+                elif depth == 0 and c == "{":
+                    break
+                j += 1
+            if j < 0 or j >= len(txt):
+                continue
+            k += 1
+            if k != nth:
+                continue
+            e = match_brace(txt, j)
+            # constructor: `: Base {args} {body}` — keep going while another brace group follows directly
+            while True:
+                r = re.match(r"\s*,?\s*(?:\w+\s*)?\{", txt[e:])
+                if not r:
+                    break
+                e = match_brace(txt, e + r.end() - 1)
+            return txt[m.start():e]
+        raise ExtractError("function not found: %s" % head_rx)
+
+    def sdef(name, text):
+        return 'def src_%s : String := "%s"' % (name, text.replace("\\", "\\\\").replace('"', '\\"'))
+    A = r"IdAllocator<T>::"
+    Tn = r"ThreadIdImpl<Leaky>::"
+    B = r"DepositBox<T>::"
+    for nm, src, rx in [
+        ("allocate", txt, A + r"allocate\s*\("), ("deallocate", txt, A + r"deallocate\s*\("), ("end", txt, r"T " + A + r"end\s*\("),
+        ("for_each", txt, A + r"for_each\s*\("), ("next_value", txt, A + r"next_value\s*\(\)\s*noexcept"),
+        ("free_head", txt, A + r"free_head\s*\("),
+        ("tid_current", txt, Tn + r"current_thread_id\s*\("), ("tid_end", txt, Tn + r"end\s*\("),
+        ("tid_for_each", txt, Tn + r"for_each\s*\("), ("tid_ctor", txt, Tn + r"ThreadIdImpl\s*\("),
+        ("tid_dtor", txt, Tn + r"~ThreadIdImpl\s*\("),
+        ("acc_move_ctor", box, B + r"Accessor::Accessor\s*\(\s*Accessor&&"),
+        ("acc_move_assign", box, B + r"Accessor::operator=\s*\(\s*Accessor&&"),
+        ("acc_dtor", box, B + r"Accessor::~Accessor\s*\("), ("acc_bool", box, B + r"Accessor::operator bool\s*\("),
+        ("acc_arrow", box, B + r"Accessor::operator->\s*\("), ("acc_star", box, B + r"Accessor::operator\*\s*\("),
+        ("acc_ctor", box, B + r"Accessor::Accessor\s*\(\s*DepositBox\*"),
+        ("box_emplace", box, B + r"emplace\s*\("), ("box_take", box, B + r"take\s*\("),
+        ("box_take_released", box, B + r"take_released\s*\("), ("box_finish_released", box, B + r"finish_released\s*\("),
+        ("box_unsafe_get", box, B + r"unsafe_get\s*\("),
+    ]:
+        items.append(sdef(nm, norm(func_text(src, rx))))
+    hdr = resolve_ifs(H)
+    for nm, src, rx in [
+        ("decl_versioned_value", hdr, r"struct VersionedValue\s*\{"), ("decl_id_allocator", hdr, r"class IdAllocator\s*\{"),
+        ("decl_thread_id_impl", hdr, r"class ThreadIdImpl\s*\{"),
+        ("decl_accessor", box, r"class DepositBox<T>::Accessor\s*\{"), ("decl_slot", box, r"struct Slot\s*\{"),
+    ]:
+        m = re.search(rx, src)
+        if not m:
+            raise ExtractError("declaration not found: " + rx)
+        items.append(sdef(nm, norm(src[m.start():match_brace(src, m.end() - 1)])))
     emit("IdAlloc", items)
